@@ -183,6 +183,12 @@ func genDocService(t *rapid.T, id string) map[string]interface{} {
 		s["priority"] = float64(rapid.IntRange(0, 3).Draw(t, "priority"))
 		s["recipientKeys"] = []interface{}{"did:example:123#k"}
 	}
+	if rapid.IntRange(0, 4).Draw(t, "svcFurtherMember") == 0 {
+		// further members of a service are opaque and kept; names that differ from id / type / serviceEndpoint only in letter
+		// case are further members too
+		name := rapid.SampledFrom([]string{"Type", "ID", "Id", "ServiceEndpoint", "TYPE", "serviceendpoint", "description", "@type", "Priority"}).Draw(t, "svcFurtherName")
+		s[name] = rapid.SampledFrom([]interface{}{"further", float64(7), []interface{}{"a"}, map[string]interface{}{"k": "v"}}).Draw(t, "svcFurtherValue")
+	}
 	return s
 }
 
@@ -244,6 +250,8 @@ func genURIList(t *rapid.T, min, max int) []interface{} {
 
 var otherMemberNames = []string{"name", "test", "x", "publicKeyX", "service2", "publi", "servic", "extra_1", "@meta", "Service", "o", "p", "arr", "a/b", "m~n", "x~1y", "x/y", "", "0", "discount%", "a%%b", "50%off", "%s", "%d%v"}
 
+var nestedMemberNames = []string{"y", "service", "publicKey", "id", "deep", "serviceEndpoint", "type", "publicKeyJwk", "alsoKnownAs"}
+
 // genOtherMembers draws "other" top-level members with ordinary names (no JSON-pointer or quoting metacharacters).
 func genOtherMembers(t *rapid.T, max int) map[string]interface{} {
 	n := rapid.IntRange(0, max).Draw(t, "nother")
@@ -256,11 +264,12 @@ func genOtherMembers(t *rapid.T, max int) map[string]interface{} {
 		case 1:
 			out[name] = float64(rapid.IntRange(-3, 1000).Draw(t, "otherNum"))
 		case 2:
-			out[name] = map[string]interface{}{"y": "1", "z": []interface{}{float64(1), "two", map[string]interface{}{"k": true}}}
+			// below the top level "service", "publicKey", "id" are names like any other
+			out[name] = map[string]interface{}{rapid.SampledFrom(nestedMemberNames).Draw(t, "nestedName"): "1", "z": []interface{}{float64(1), "two", map[string]interface{}{"k": true}}}
 		case 3:
 			out[name] = []interface{}{"e0", float64(1), map[string]interface{}{"in": "arr"}}
 		default:
-			out[name] = map[string]interface{}{"nested": map[string]interface{}{"deep": []interface{}{}}}
+			out[name] = map[string]interface{}{"nested": map[string]interface{}{rapid.SampledFrom(nestedMemberNames).Draw(t, "deepName"): []interface{}{}}}
 		}
 	}
 	return out
@@ -848,9 +857,10 @@ func genPointer(t *rapid.T, doc interface{}, label string, avoidProtected bool) 
 	case 0:
 		base := rapid.SampledFrom(ptrs).Draw(t, label+"-base")
 		base = strings.TrimSuffix(base, "/-")
-		res = base + "/" + rapid.SampledFrom(otherMemberNames).Draw(t, label+"-new")
+		res = base + "/" + rapid.SampledFrom(append(append([]string{}, otherMemberNames...), nestedMemberNames...)).Draw(t, label+"-new")
 	case 1:
-		res = "/" + rapid.SampledFrom(otherMemberNames).Draw(t, label+"-top")
+		// "id" and "@context" are ordinary members of an internal document as far as patches go
+		res = "/" + rapid.SampledFrom(append(append([]string{}, otherMemberNames...), "id", "@context", "identifier", "idx")).Draw(t, label+"-top")
 	case 2:
 		res = rapid.SampledFrom([]string{"", "/", "/x/y/z", "/arr/5", "/arr/-1", "/arr/01", "/o~1p", "/a~0b", "nope", "/arr/1e0"}).Draw(t, label+"-junk")
 	default:
